@@ -374,3 +374,18 @@ Proof.
     intros t Ht; repeat (destruct Ht as [<-|Ht]; [repeat (constructor; simpl; try (intros [H|H]; try discriminate; try contradiction); try tauto)|]);
     try contradiction.
 Qed.
+
+(* three Gets of two callers with different address filters on one cached
+   header range: the second is served from the cache (0 base requests) and
+   sees the first caller's logs too; the hypotheses of
+   [cached_client_transparent] hold and its conclusion is not trivial *)
+Example ex_cget :
+  let opA := mkGop (Some KHeaders) XLogs [1] (0, 1) [] false false in
+  let opB := mkGop (Some KHeaders) XLogs [2] (0, 1) [] false false in
+  match cget_run ex_chain (new_client 3) [opA; opB; opA] with
+  | Some (_, [(GOk _, 1, 1); (GOk [b2], 0, 1); (GOk _, 0, 1)]) =>
+      logs_of b2 0 = [mkLog 0 1 50; mkLog 1 2 51]
+      /\ filter (want XLogs [2]) (logs_of b2 0) = [mkLog 1 2 51]
+  | _ => False
+  end.
+Proof. vm_compute. split; reflexivity. Qed.
